@@ -166,7 +166,7 @@ CHECKS["C13"] = dict(
           "through any number of adapters sharing the metric returns for each pair the (sign-adjusted) value of a fresh metric after that "
           "single pair and leaves the metric fresh; the validator probe leaves it fresh; the hypothesis is proved for running-mean metrics. "
           "River's metric classes themselves are outside /repo: the hypothesis and the property are MONITORED on every metric class the "
-          "installed river offers that validate_loss_function accepts (41), with interleaved shared histories."),
+          "installed river offers that validate_loss_function accepts (41), with interleaved shared histories. Additionally (soft tie) RiverMetricToLossFunction.__call__ is translated statement by statement on every run, once per value of dict_input_metric, and Props/GenRiverLoss.lean proves both specialisations equal to the model's lossCall."),
     design_ref="DESIGN.md section 6, C13", note=TRUST_H + " river metrics' update/revert/get behaviour is monitored, not proved.",
     technique="Lean 4 theorems over abstract metric + monitored hypothesis on all accepted river metrics",
 )
@@ -242,7 +242,8 @@ CHECKS["C19"] = dict(
           "counterexample); the imputer changes only requested features and takes each value "
           "from a point in the routed leaf's reservoir or the fall-back. River's trees are an oracle recorded from the real objects; hypotheses and "
           "clauses are monitored after every update/imputation. Additionally (soft tie) _update_data_reservoirs / _delete_outdated_reservoirs are "
-          "translated statement by statement on every run and Props/GenTree.lean proves the generated update equal to the model's updateFeature."),
+          "translated statement by statement on every run and Props/GenTree.lean proves the generated update equal to the model's updateFeature; "
+          "likewise TreeImputer._sample_from_storages and Props/GenTreeImputer.lean (= the model's imputeValue)."),
     design_ref="DESIGN.md section 6, C19", note=TRUST_H + " river's Hoeffding trees (learn_one, routing, leaf enumeration) are an oracle: monitored, not proved.",
     technique="Lean 4 theorems over oracle-parametrised model + recorded-oracle correspondence + monitored hypotheses",
 )
